@@ -129,6 +129,10 @@ func (r *Rules) ValidNewView(i Info, height, view uint64, freshOK bool) (bool, s
 		if !v.Sender.SigOK {
 			return false, "vote without a valid signature"
 		}
+		if v.Type != int(protocol.LEAN_HELIX_VIEW_CHANGE) {
+			// what the member signed is not a VIEW_CHANGE (a PREPARE or COMMIT has the same wire layout): it never voted
+			return false, "vote whose signed header declares another message type"
+		}
 		if !r.Member(v.Sender.ID) {
 			continue // adds no weight; the member votes must satisfy the rule on their own
 		}
